@@ -74,6 +74,10 @@ def make_pool():
     add("GreedyRange(H)", C.GreedyRange(H), B, [[dict(k=1, n=2)] * 3, []])
     add("RepeatUntil(obj==0,Byte)", C.RepeatUntil(obj_ == 0, C.Byte), B, [[1, 2, 0], [1, 2]])
     add("Switch(this.t)", C.Struct("t" / E, "v" / C.Switch(this.t, {"a": C.Byte, "b": C.Int16ub}, default=C.Pass)), B, [dict(t="a", v=1), dict(t="b", v=300), dict(t=9, v=None)])
+    # two constructs over one user-supplied cases table, with different defaults
+    table = {1: C.Byte, 2: C.Int16ub}
+    add("Switch(shared-table,default=Pass)", C.Struct("t" / C.Byte, "v" / C.Switch(this.t, table, default=C.Pass)), B, [dict(t=1, v=1), dict(t=7, v=None)])
+    add("Switch(shared-table,default=Int32ub)", C.Struct("t" / C.Byte, "v" / C.Switch(this.t, table, default=C.Int32ub)), B, [dict(t=1, v=1), dict(t=7, v=5), dict(t=9, v=70000)])
     add("IfThenElse(this.c)", C.IfThenElse(this._params.c, C.Byte, C.Int16ub), B, [1, 300], kws=({"c": True}, {"c": False}, {}))
     add("Bitwise", C.BitStruct("a" / C.Nibble, "b" / C.Flag, "c" / C.BitsInteger(3), "d" / C.Bytewise(C.Byte)), B, [dict(a=1, b=True, c=7, d=9), dict(a=16, b=0, c=0, d=0)])
     add("BitsCtx", C.Bitwise(C.BitsInteger(this._params.w)), B, [1, 255, 70000], kws=({"w": 8}, {"w": 16}, {"w": 3}))
@@ -260,12 +264,12 @@ def run(ctx):
     ops = Ops(pool)
     ctx.count("pool_constructs", len(pool) if ctx.index == 0 else 0)
     ctx.count("distinct_operations", len(ops.ops) if ctx.index == 0 else 0)
-    # ---- reference phase (sequential, each op once)
+    # ---- reference phase (sequential, each op once); the fingerprints are taken before the very first use
+    fp0 = [monitors.fingerprint(d) for (_, d, *_r) in pool]
     memo = {}
     for op in ops.ops:
         memo[op] = ops.run(op)
     failing = {op for op, r in memo.items() if r[0] == "exc"}
-    fp0 = [monitors.fingerprint(d) for (_, d, *_r) in pool]
     share = [frozenset(reachable(d)) for (_, d, *_r) in pool]
     monitors.GUARD.writes.clear()
     monitors.GUARD.fresh.clear()
